@@ -125,13 +125,13 @@ def content : List BTree → Content
   | [] => {}
   | t :: r => (kidContent t).merge (content r)
 
-def InterM.add (x : InterM) (k : Content) : InterM :=
+def addC (x : InterM) (k : Content) : InterM :=
   { x with descr := x.descr.or k.descr, query := x.query.or k.query, request := mergeReq x.request k.request,
            responses := x.responses ++ k.responses, params := x.params || k.params, result := x.result || k.result }
 
 /-- the interaction of a method directive `d` with children `kids`, id `i` and tags `ns` -/
 def interOf (i : IId) (d : BDir) (ns : List Bytes) (kids : List BTree) : InterM :=
-  InterM.add { iid := i, annot := d.annot, tags := ns } (content kids)
+  addC { iid := i, annot := d.annot, tags := ns } (content kids)
 
 /-! ### the construction seen from one interaction -/
 
@@ -490,5 +490,1314 @@ theorem addResponse_loc {d : BDir} {anc : List Up} {c c' : Cat} (hk : d.kind = .
     · split at h; · cases h
       rename_i _ hnb
       simp [hkb] at hnb
+
+theorem addHeaders_loc {d : BDir} {anc : List Up} {c c' : Cat} (h : addHeaders d anc c = .ok c') :
+    ∃ i, httpIdOf (d :: anc.map (·.d)) = .ok i ∧ Loc i (lHeaders anc) c c' := by
+  unfold addHeaders at h
+  simp only [fail] at h
+  split at h; · cases h
+  split at h; · cases h
+  split at h; · cases h
+  rename_i p r
+  split at h
+  · rename_i hp
+    obtain ⟨i, hi, h⟩ := C04B.bind_ok h
+    split at h; · cases h
+    rename_i x hx
+    split at h; · cases h
+    rename_i q hq
+    split at h; · cases h
+    rename_i hh
+    cases h
+    refine ⟨i, C04B.liftAt_ok hi, Loc.upd _ (fun _ => rfl) ?_⟩
+    intro x' hx'
+    rw [hx] at hx'; cases hx'
+    simp [lHeaders, hp, lHeadReq, hq, hh]
+  rename_i hp
+  split at h
+  · rename_i hp2
+    obtain ⟨i, hi, h⟩ := C04B.bind_ok h
+    split at h; · cases h
+    rename_i x hx
+    split at h; · cases h
+    rename_i q hq
+    split at h; · cases h
+    rename_i hh
+    cases h
+    refine ⟨i, C04B.liftAt_ok hi, Loc.upd _ (fun _ => rfl) ?_⟩
+    intro x' hx'
+    rw [hx] at hx'; cases hx'
+    simp [lHeaders, hp, hp2, lHeadResp, hq, hh]
+  · cases h
+
+theorem addBody_loc {d : BDir} {anc : List Up} {c c' : Cat} (hk : d.kind = .Body) (h : addBody d anc c = .ok c') :
+    (∃ i, httpIdOf (d :: anc.map (·.d)) = .ok i ∧ Loc i (lBody d anc) c c') ∨
+      (c' = c ∧ ∀ x, lBody d anc x = some x) := by
+  unfold addBody at h
+  simp only [fail] at h
+  split at h; · cases h
+  rename_i p r
+  split at h; · cases h
+  split at h
+  · rename_i hp
+    obtain ⟨i, hi, hl⟩ := addRequest_loc (.inr hk) h
+    exact .inl ⟨i, hi, hl.mono (fun x y _ hy => by simpa [lBody, hp] using hy)⟩
+  rename_i hp
+  split at h
+  · rename_i hp2
+    obtain ⟨i, hi, hl⟩ := addResponse_loc (.inr hk) h
+    exact .inl ⟨i, hi, hl.mono (fun x y _ hy => by simpa [lBody, hp, hp2] using hy)⟩
+  · rename_i hp2
+    cases h
+    exact .inr ⟨rfl, fun x => by simp [lBody, hp, hp2]⟩
+
+theorem addRpcSchema_loc {p : Bool} {d : BDir} {anc : List Up} {c c' : Cat} (h : addRpcSchema p d anc c = .ok c') :
+    ∃ i, rpcIdOf (d :: anc.map (·.d)) = .ok i ∧ Loc i (if p then lParams else lResult) c c' := by
+  unfold addRpcSchema at h
+  simp only [fail] at h
+  split at h; · cases h
+  split at h; · cases h
+  obtain ⟨i, hi, h⟩ := C04B.bind_ok h
+  split at h; · cases h
+  rename_i x hx
+  split at h
+  · rename_i hp
+    split at h; · cases h
+    rename_i hh
+    cases h
+    refine ⟨i, C04B.liftAt_ok hi, Loc.upd _ (fun _ => rfl) ?_⟩
+    intro x' hx'
+    rw [hx] at hx'; cases hx'
+    simp [hp, lParams, hh]
+  · rename_i hp
+    split at h; · cases h
+    rename_i hh
+    cases h
+    refine ⟨i, C04B.liftAt_ok hi, Loc.upd _ (fun _ => rfl) ?_⟩
+    intro x' hx'
+    rw [hx] at hx'; cases hx'
+    simp [hp, lResult, hh]
+
+theorem addDescription_loc {d : BDir} {kids : List BDir} {anc : List Up} {c c' : Cat}
+    (h : addDescription d anc c = .ok c') :
+    (∃ i, tgtDescr ⟨d, kids, anc⟩ = some i ∧ Loc i (lDescr d) c c') ∨
+      (c'.inters = c.inters ∧ tgtDescr ⟨d, kids, anc⟩ = none) := by
+  unfold addDescription at h
+  simp only [fail] at h
+  split at h; · cases h
+  split at h; · cases h
+  rename_i b hb
+  split at h; · cases h
+  rename_i text htext
+  have hdt : descrText d = some text := by simp [descrText, hb, htext]
+  split at h; · cases h
+  split at h; · cases h
+  rename_i p r
+  split at h
+  · rename_i hp
+    have hp' : p.d.kind = .Info := by simpa using hp
+    split at h; · cases h
+    split at h; · cases h
+    cases h
+    exact .inr ⟨rfl, by simp [tgtDescr, hp', isHTTP, httpMethods]⟩
+  rename_i hp
+  split at h
+  · rename_i hp2
+    obtain ⟨i, hi, h⟩ := C04B.bind_ok h
+    split at h; · cases h
+    rename_i x hx
+    split at h; · cases h
+    rename_i hh
+    cases h
+    have hi' := C04B.liftAt_ok hi
+    simp only [List.map_cons] at hi'
+    refine .inl ⟨i, by simp [tgtDescr, hp2, Ent.chain, hi', Except.toOption], Loc.upd _ (fun _ => rfl) ?_⟩
+    intro x' hx'
+    rw [hx] at hx'; cases hx'
+    simp [lDescr, hdt, hh]
+  rename_i hp2
+  split at h
+  · rename_i hp3
+    obtain ⟨i, hi, h⟩ := C04B.bind_ok h
+    split at h; · cases h
+    rename_i x hx
+    split at h; · cases h
+    rename_i hh
+    cases h
+    have hi' := C04B.liftAt_ok hi
+    simp only [List.map_cons] at hi'
+    refine .inl ⟨i, by simp [tgtDescr, hp2, hp3, Ent.chain, hi', Except.toOption], Loc.upd _ (fun _ => rfl) ?_⟩
+    intro x' hx'
+    rw [hx] at hx'; cases hx'
+    simp [lDescr, hdt, hh]
+  rename_i hp3
+  split at h
+  · split at h; · cases h
+    split at h; · cases h
+    cases h
+    exact .inr ⟨rfl, by simp [tgtDescr, hp2, hp3]⟩
+  · cases h
+
+/-! ### one step, seen from the interaction `j` -/
+
+theorem Loc.at' {c c' : Cat} {i : IId} {L : InterM → Option InterM} {t : Option IId} (h : Loc i L c c')
+    (ht : t = some i) {j : IId} {x : InterM} (hj : c.getInter j = some x) :
+    ∃ y, c'.getInter j = some y ∧ (if t = some j then L x else some x) = some y := by
+  subst ht
+  obtain ⟨y, hy, e⟩ := h j x hj
+  refine ⟨y, hy, ?_⟩
+  by_cases hji : j = i
+  · subst hji; simpa using e
+  · have : ¬ (some i = some j) := fun h => hji (by cases h; rfl)
+    simpa [hji, this] using e
+
+theorem keep_same {c c' : Cat} (hc : c'.inters = c.inters) {j : IId} {x : InterM} (hj : c.getInter j = some x) :
+    c'.getInter j = some x := by
+  simpa [Cat.getInter, hc] using hj
+
+theorem toOption_ok {α} {e : Except Msg α} {a : α} (h : e = .ok a) : e.toOption = some a := by
+  subst h; rfl
+
+theorem toOption_some {α} {e : Except Msg α} {a : α} (h : e.toOption = some a) : e = .ok a := by
+  cases e with
+  | error m => cases h
+  | ok b => cases h; rfl
+
+theorem stepR_inters {e : Ent} {c c' : Cat} (h : StepR e c c') (hm : isMeth e.d.kind = false)
+    (hn : neutral e.d.kind = false) : c'.inters = c.inters := by
+  cases h
+  case method hm' _ _ _ _ => rw [hm] at hm'; cases hm'
+  case same hn' => rw [hn] at hn'; try cases hn'
+  case inters hn' _ => rw [hn] at hn'; try cases hn'
+  case tagsMap hn' _ => rw [hn] at hn'; try cases hn'
+  case proto hn' => rw [hn] at hn'; try cases hn'
+  all_goals rfl
+
+/-- a method directive creates its interaction, which did not exist before -/
+theorem step_meth {banned : List Kind} {e : Ent} {c c' : Cat} (hm : isMeth e.d.kind = true)
+    (h : step banned e c = .ok c') :
+    ∃ i ns, idOf e = .ok i ∧ c.getInter i = none ∧
+      c'.inters = c.inters ++ [{ iid := i, annot := e.d.annot, tags := ns }] := by
+  have hs := (step_ok h).2
+  cases hs
+  case method sim i ns extra g _ hi hh _ _ =>
+    exact ⟨i, ns, hi, by simpa [Cat.hasInter, Cat.getInter] using hh, rfl⟩
+  case same hn => rw [(neutral_facts hn).2.2.1] at hm; cases hm
+  case inters hn _ => rw [(neutral_facts hn).2.2.1] at hm; cases hm
+  case tagsMap hn _ => rw [(neutral_facts hn).2.2.1] at hm; cases hm
+  case proto hn => rw [(neutral_facts hn).2.2.1] at hm; cases hm
+  all_goals simp_all [isMeth, isHTTP, httpMethods]
+
+theorem keep_append {c c' : Cat} {a : InterM} (hc : c'.inters = c.inters ++ [a]) {j : IId} {x : InterM}
+    (hj : c.getInter j = some x) : c'.getInter j = some x := by
+  simp only [Cat.getInter] at hj ⊢
+  rw [hc, List.find?_append, hj]; rfl
+
+theorem step_loc {banned : List Kind} {e : Ent} {c c' : Cat} (h : step banned e c = .ok c') {j : IId} {x : InterM}
+    (hj : c.getInter j = some x) :
+    ∃ y, c'.getInter j = some y ∧ (if tgt e = some j then effP e x else some x) = some y := by
+  obtain ⟨d, kids, anc⟩ := e
+  have hs := (step_ok h).2
+  have hmeth : ∀ {k}, d.kind = k → isMeth k = true → tgt ⟨d, kids, anc⟩ = none →
+      ∃ y, c'.getInter j = some y ∧ (if tgt ⟨d, kids, anc⟩ = some j then effP ⟨d, kids, anc⟩ x else some x) = some y := by
+    intro k hk hm ht
+    obtain ⟨i, ns, _, _, hc⟩ := step_meth (e := ⟨d, kids, anc⟩) (by simpa [hk] using hm) h
+    exact ⟨x, keep_append hc hj, by simp [ht]⟩
+  have hplain : ∀ {k}, d.kind = k → isMeth k = false → neutral k = false → tgt ⟨d, kids, anc⟩ = none →
+      ∃ y, c'.getInter j = some y ∧ (if tgt ⟨d, kids, anc⟩ = some j then effP ⟨d, kids, anc⟩ x else some x) = some y := by
+    intro k hk hm hn ht
+    have hc := stepR_inters hs (by simpa [hk] using hm) (by simpa [hk] using hn)
+    exact ⟨x, keep_same hc hj, by simp [ht]⟩
+  unfold step addDirective at h
+  simp only [fail] at h
+  split at h; · cases h
+  split at h
+  · rename_i hk; exact hplain hk rfl rfl (by simp [tgt, hk])
+  · rename_i hk; exact hplain hk rfl rfl (by simp [tgt, hk])
+  · rename_i hk; exact hplain hk rfl rfl (by simp [tgt, hk])
+  · rename_i hk; exact hplain hk rfl rfl (by simp [tgt, hk])
+  · rename_i hk
+    rcases addDescription_loc (kids := kids) h with ⟨i, hi, hl⟩ | ⟨hc, ht⟩
+    · simpa [tgt, effP, hk] using hl.at' hi hj
+    · exact ⟨x, keep_same hc hj, by simp [tgt, hk, ht]⟩
+  · rename_i hk; exact hplain hk rfl rfl (by simp [tgt, hk])
+  · rename_i hk; exact hplain hk rfl rfl (by simp [tgt, hk])
+  · rename_i hk; exact hplain hk rfl rfl (by simp [tgt, hk])
+  · rename_i hk; exact hplain hk rfl rfl (by simp [tgt, hk])
+  · rename_i hk; exact hmeth hk rfl (by simp [tgt, hk])
+  · rename_i hk; exact hmeth hk rfl (by simp [tgt, hk])
+  · rename_i hk; exact hmeth hk rfl (by simp [tgt, hk])
+  · rename_i hk; exact hmeth hk rfl (by simp [tgt, hk])
+  · rename_i hk; exact hmeth hk rfl (by simp [tgt, hk])
+  · rename_i hk
+    obtain ⟨i, hi, hl⟩ := addQuery_loc h
+    simpa [tgt, effP, hk] using hl.at' (t := tgt ⟨d, kids, anc⟩) (by simp [tgt, hk, Ent.chain, toOption_ok hi]) hj
+  · rename_i hk
+    obtain ⟨i, hi, hl⟩ := addRequest_loc (.inl hk) h
+    simpa [tgt, effP, hk] using hl.at' (t := tgt ⟨d, kids, anc⟩) (by simp [tgt, hk, Ent.chain, toOption_ok hi]) hj
+  · rename_i hk
+    obtain ⟨i, hi, hl⟩ := addResponse_loc (.inl hk) h
+    simpa [tgt, effP, hk] using hl.at' (t := tgt ⟨d, kids, anc⟩) (by simp [tgt, hk, Ent.chain, toOption_ok hi]) hj
+  · rename_i hk
+    obtain ⟨i, hi, hl⟩ := addHeaders_loc h
+    simpa [tgt, effP, hk] using hl.at' (t := tgt ⟨d, kids, anc⟩) (by simp [tgt, hk, Ent.chain, toOption_ok hi]) hj
+  · rename_i hk
+    rcases addBody_loc hk h with ⟨i, hi, hl⟩ | ⟨hc, hL⟩
+    · simpa [tgt, effP, hk] using hl.at' (t := tgt ⟨d, kids, anc⟩) (by simp [tgt, hk, Ent.chain, toOption_ok hi]) hj
+    · subst hc
+      exact ⟨x, hj, by simp [effP, hk, hL]⟩
+  · rename_i hk
+    unfold addProtocol at h
+    peel h
+    cases h
+    exact ⟨x, keep_same rfl hj, by simp [tgt, hk]⟩
+  · rename_i hk; exact hmeth hk rfl (by simp [tgt, hk])
+  · rename_i hk
+    obtain ⟨i, hi, hl⟩ := addRpcSchema_loc h
+    simpa [tgt, effP, hk] using hl.at' (t := tgt ⟨d, kids, anc⟩) (by simp [tgt, hk, Ent.chain, toOption_ok hi]) hj
+  · rename_i hk
+    obtain ⟨i, hi, hl⟩ := addRpcSchema_loc h
+    simpa [tgt, effP, hk] using hl.at' (t := tgt ⟨d, kids, anc⟩) (by simp [tgt, hk, Ent.chain, toOption_ok hi]) hj
+  · rename_i hk
+    rw [addTags_ok h]
+    exact ⟨x, hj, by simp [tgt, hk]⟩
+  · cases h
+    refine ⟨x, hj, ?_⟩
+    cases hkk : d.kind <;> simp_all [tgt]
+
+/-! ### a run, seen from the interaction `j` -/
+
+theorem run_loc {banned : List Kind} : ∀ (l : List Ent) {c c' : Cat} {j : IId} {x : InterM},
+    run banned l c = .ok c' → c.getInter j = some x → ∃ y, c'.getInter j = some y ∧ foldP j l x = some y
+  | [], c, c', j, x, h, hj => by
+    simp [run] at h; subst h; exact ⟨x, hj, rfl⟩
+  | e :: r, c, c', j, x, h, hj => by
+    simp only [run] at h
+    cases hs : step banned e c with
+    | error err => simp [hs] at h
+    | ok c₁ =>
+      simp only [hs] at h
+      obtain ⟨y, hy, e₁⟩ := step_loc hs hj
+      obtain ⟨z, hz, e₂⟩ := run_loc r h hy
+      refine ⟨z, hz, ?_⟩
+      simp only [foldP]
+      split
+      · rename_i ht
+        simp only [ht, if_true] at e₁
+        simp [e₁, e₂]
+      · rename_i ht
+        simp only [ht, if_false] at e₁
+        cases e₁; exact e₂
+
+/-- once the interaction `i` exists, no later method directive has the id `i` -/
+theorem run_no_meth {banned : List Kind} : ∀ (l : List Ent) {c c' : Cat} {i : IId} {x : InterM},
+    run banned l c = .ok c' → c.getInter i = some x → ∀ m ∈ l, isMeth m.d.kind = true → idOf m ≠ .ok i
+  | [], _, _, _, _, _, _, m, hm, _ => by cases hm
+  | e :: r, c, c', i, x, h, hi, m, hm, hk => by
+    simp only [run] at h
+    cases hs : step banned e c with
+    | error err => simp [hs] at h
+    | ok c₁ =>
+      simp only [hs] at h
+      cases hm with
+      | head =>
+        obtain ⟨i', _, hid, hnone, _⟩ := step_meth hk hs
+        intro heq
+        rw [hid] at heq
+        cases heq
+        rw [hi] at hnone; cases hnone
+      | tail _ hm' =>
+        obtain ⟨y, hy, _⟩ := step_loc (j := i) hs hi
+        exact run_no_meth r h hy m hm' hk
+
+theorem foldP_skip (j : IId) : ∀ (l : List Ent) (x : InterM), (∀ e ∈ l, tgt e ≠ some j) → foldP j l x = some x
+  | [], _, _ => rfl
+  | e :: r, x, h => by
+    simp only [foldP, h e (List.mem_cons_self ..), if_false]
+    exact foldP_skip j r x (fun e' he' => h e' (List.mem_cons_of_mem _ he'))
+
+/-! ### the shape of the forest -/
+
+mutual
+  theorem flatA_subs (anc : List Up) : ∀ t : BTree, flatA anc t = (subs anc t).map entOf
+    | .node d kids => by simp [flatA, subs, entOf, BTree.dir, BTree.kids, flatAF_subs _ kids]
+  theorem flatAF_subs (anc : List Up) : ∀ f : List BTree, flatAF anc f = (subsF anc f).map entOf
+    | [] => by simp [flatAF, subsF]
+    | t :: r => by simp [flatAF, subsF, flatA_subs anc t, flatAF_subs anc r]
+end
+
+mutual
+  theorem mem_flatA_anc (anc : List Up) : ∀ (t : BTree) (e : Ent), e ∈ flatA anc t →
+      ∃ ups, e.anc = ups ++ anc ∧ (∀ u ∈ ups, u.d ∈ flat t) ∧ e.d ∈ flat t
+    | .node d kids, e, he => by
+      simp only [flatA, List.mem_cons] at he
+      rcases he with rfl | he
+      · exact ⟨[], rfl, by simp, by simp [flat]⟩
+      · obtain ⟨ups, h1, h2, h3⟩ := mem_flatAF_anc _ kids e he
+        refine ⟨ups ++ [⟨d, kids.map BTree.dir⟩], by simp [h1], ?_, ?_⟩
+        · intro u hu
+          simp only [List.mem_append, List.mem_singleton] at hu
+          rcases hu with hu | rfl
+          · simp [flat, h2 u hu]
+          · simp [flat]
+        · simp [flat, h3]
+  theorem mem_flatAF_anc (anc : List Up) : ∀ (f : List BTree) (e : Ent), e ∈ flatAF anc f →
+      ∃ ups, e.anc = ups ++ anc ∧ (∀ u ∈ ups, u.d ∈ flatF f) ∧ e.d ∈ flatF f
+    | [], e, he => by simp [flatAF] at he
+    | t :: r, e, he => by
+      simp only [flatAF, List.mem_append] at he
+      rcases he with he | he
+      · obtain ⟨ups, h1, h2, h3⟩ := mem_flatA_anc anc t e he
+        exact ⟨ups, h1, fun u hu => by simp [flatF, h2 u hu], by simp [flatF, h3]⟩
+      · obtain ⟨ups, h1, h2, h3⟩ := mem_flatAF_anc anc r e he
+        exact ⟨ups, h1, fun u hu => by simp [flatF, h2 u hu], by simp [flatF, h3]⟩
+end
+
+/-- the kinds that occur below a method directive -/
+def inner (k : Kind) : Bool :=
+  [Kind.Description, .Request, .HTTPResponseCode, .Path, .Query, .Paste, .Tags, .Body, .Headers, .Params, .Result].contains k
+
+theorem inner_closed (p c : Kind) : (isMeth p || inner p) = true → admitsK p c = true → inner c = true := by
+  cases p <;> cases c <;> decide
+
+theorem inner_facts {k : Kind} (h : inner k = true) :
+    (k == Kind.URL) = false ∧ isHTTP k = false ∧ (k == Kind.Method) = false ∧ isMeth k = false := by
+  cases k <;> first | (cases h; done) | decide
+
+mutual
+  theorem inner_flat (p : Kind) (hp : (isMeth p || inner p) = true) : ∀ t : BTree, obeysT t = true →
+      admitsK p t.dir.kind = true → ∀ d ∈ flat t, inner d.kind = true
+    | .node d kids, ho, ha, d', hd' => by
+      simp only [obeysT, Bool.and_eq_true, List.all_eq_true] at ho
+      have hin : inner d.kind = true := inner_closed p d.kind hp ha
+      simp only [flat, List.mem_cons] at hd'
+      rcases hd' with rfl | hd'
+      · exact hin
+      · exact inner_flatF d.kind (by simp [hin]) kids ho.2
+          (fun k hk => ho.1 k.dir (List.mem_map_of_mem hk)) d' hd'
+  theorem inner_flatF (p : Kind) (hp : (isMeth p || inner p) = true) : ∀ f : List BTree, obeysF f = true →
+      (∀ k ∈ f, admitsK p k.dir.kind = true) → ∀ d ∈ flatF f, inner d.kind = true
+    | [], _, _, d, hd => by simp [flatF] at hd
+    | t :: r, ho, ha, d, hd => by
+      simp only [obeysF, Bool.and_eq_true] at ho
+      simp only [flatF, List.mem_append] at hd
+      rcases hd with hd | hd
+      · exact inner_flat p hp t ho.1 (ha t (List.mem_cons_self ..)) d hd
+      · exact inner_flatF p hp r ho.2 (fun k hk => ha k (List.mem_cons_of_mem _ hk)) d hd
+end
+
+/-! ### the id an entry below a method directive resolves to -/
+
+theorem httpIdOf_skip {d : BDir} {r : List BDir} (h : inner d.kind = true) : httpIdOf (d :: r) = httpIdOf r := by
+  obtain ⟨h1, h2, _, _⟩ := inner_facts h
+  simp [httpIdOf, pathChain, methodChain, h1, h2]
+
+theorem rpcIdOf_skip {d : BDir} {r : List BDir} (h : inner d.kind = true) : rpcIdOf (d :: r) = rpcIdOf r := by
+  obtain ⟨h1, h2, h3, _⟩ := inner_facts h
+  simp [rpcIdOf, pathChain, rpcNameChain, h1, h2, h3]
+
+theorem httpIdOf_skips (ch : List BDir) : ∀ ps : List BDir, (∀ d ∈ ps, inner d.kind = true) →
+    httpIdOf (ps ++ ch) = httpIdOf ch
+  | [], _ => rfl
+  | d :: r, h => by
+    rw [List.cons_append, httpIdOf_skip (h d (List.mem_cons_self ..))]
+    exact httpIdOf_skips ch r (fun d' hd' => h d' (List.mem_cons_of_mem _ hd'))
+
+theorem rpcIdOf_skips (ch : List BDir) : ∀ ps : List BDir, (∀ d ∈ ps, inner d.kind = true) →
+    rpcIdOf (ps ++ ch) = rpcIdOf ch
+  | [], _ => rfl
+  | d :: r, h => by
+    rw [List.cons_append, rpcIdOf_skip (h d (List.mem_cons_self ..))]
+    exact rpcIdOf_skips ch r (fun d' hd' => h d' (List.mem_cons_of_mem _ hd'))
+
+theorem methodChain_none : ∀ ch : List BDir, (∀ d ∈ ch, isHTTP d.kind = false) →
+    methodChain ch = .error .httpMethodNotFound
+  | [], _ => rfl
+  | d :: r, h => by
+    simp only [methodChain, h d (List.mem_cons_self ..)]
+    exact methodChain_none r (fun d' hd' => h d' (List.mem_cons_of_mem _ hd'))
+
+theorem rpcNameChain_none : ∀ ch : List BDir, (∀ d ∈ ch, (d.kind == Kind.Method) = false) →
+    rpcNameChain ch = .error .rpcMethodNotFound
+  | [], _ => rfl
+  | d :: r, h => by
+    simp only [rpcNameChain, h d (List.mem_cons_self ..)]
+    exact rpcNameChain_none r (fun d' hd' => h d' (List.mem_cons_of_mem _ hd'))
+
+theorem httpIdOf_none {ch : List BDir} (h : ∀ d ∈ ch, isHTTP d.kind = false) (i : IId) : httpIdOf ch ≠ .ok i := by
+  unfold httpIdOf
+  rw [methodChain_none ch h]
+  cases pathChain ch <;> intro h' <;> cases h'
+
+theorem rpcIdOf_none {ch : List BDir} (h : ∀ d ∈ ch, (d.kind == Kind.Method) = false) (i : IId) :
+    rpcIdOf ch ≠ .ok i := by
+  unfold rpcIdOf
+  rw [rpcNameChain_none ch h]
+  cases pathChain ch <;> intro h' <;> cases h'
+
+theorem isMeth_split {k : Kind} (h : isMeth k = true) : (k == Kind.Method) = true ∨ ((k == Kind.Method) = false ∧ isHTTP k = true) := by
+  cases k <;> first | (revert h; decide) | decide
+
+theorem isMeth_false {k : Kind} (h : isMeth k = false) : isHTTP k = false ∧ (k == Kind.Method) = false := by
+  cases k <;> first | (revert h; decide) | decide
+
+/-- an entry that targets an interaction has a method directive on its chain -/
+theorem tgt_some_meth {e : Ent} {j : IId} (h : tgt e = some j) : ∃ d ∈ e.chain, isMeth d.kind = true := by
+  apply Classical.byContradiction
+  intro hno
+  have hall : ∀ d ∈ e.chain, isMeth d.kind = false := by
+    intro d hd
+    cases hm : isMeth d.kind with
+    | false => rfl
+    | true => exact absurd ⟨d, hd, hm⟩ hno
+  have hh : ∀ i, httpIdOf e.chain ≠ .ok i := httpIdOf_none (fun d hd => (isMeth_false (hall d hd)).1)
+  have hr : ∀ i, rpcIdOf e.chain ≠ .ok i := rpcIdOf_none (fun d hd => (isMeth_false (hall d hd)).2)
+  have hh' : (httpIdOf e.chain).toOption ≠ some j := fun h' => hh j (toOption_some h')
+  have hr' : (rpcIdOf e.chain).toOption ≠ some j := fun h' => hr j (toOption_some h')
+  unfold tgt at h
+  split at h
+  · unfold tgtDescr at h
+    split at h
+    · split at h
+      · exact hh' h
+      · split at h
+        · exact hr' h
+        · cases h
+    · cases h
+  all_goals first | exact hh' h | exact hr' h | cases h
+
+/-- an entry below a method directive (inner kinds in between, no method directive above) targets the
+method's own interaction, if any -/
+theorem tgt_below {e : Ent} {ups : List Up} {md : BDir} {mk : List BDir} {manc : List Up} {j : IId}
+    (hin : inner e.d.kind = true) (hanc : e.anc = ups ++ ⟨md, mk⟩ :: manc) (hups : ∀ u ∈ ups, inner u.d.kind = true)
+    (hno : ∀ u ∈ manc, isMeth u.d.kind = false) (hm : isMeth md.kind = true) (ht : tgt e = some j) :
+    idOf ⟨md, mk, manc⟩ = .ok j := by
+  have hch : e.chain = (e.d :: ups.map (·.d)) ++ (md :: manc.map (·.d)) := by simp [Ent.chain, hanc]
+  have hps : ∀ d ∈ e.d :: ups.map (·.d), inner d.kind = true := by
+    intro d hd
+    simp only [List.mem_cons, List.mem_map] at hd
+    rcases hd with rfl | ⟨u, hu, rfl⟩
+    · exact hin
+    · exact hups u hu
+  have Hh : httpIdOf e.chain = httpIdOf (md :: manc.map (·.d)) := by rw [hch]; exact httpIdOf_skips _ _ hps
+  have Hr : rpcIdOf e.chain = rpcIdOf (md :: manc.map (·.d)) := by rw [hch]; exact rpcIdOf_skips _ _ hps
+  have hancH : ∀ d ∈ manc.map (·.d), isHTTP d.kind = false := by
+    intro d hd; obtain ⟨u, hu, rfl⟩ := List.mem_map.mp hd; exact (isMeth_false (hno u hu)).1
+  have hancM : ∀ d ∈ manc.map (·.d), (d.kind == Kind.Method) = false := by
+    intro d hd; obtain ⟨u, hu, rfl⟩ := List.mem_map.mp hd; exact (isMeth_false (hno u hu)).2
+  have httpCase : httpIdOf e.chain = .ok j → idOf ⟨md, mk, manc⟩ = .ok j := by
+    intro h
+    rw [Hh] at h
+    rcases isMeth_split hm with hM | ⟨hM, _⟩
+    · have hk : md.kind = .Method := by simpa using hM
+      exact absurd h (httpIdOf_none (by
+        intro d hd
+        simp only [List.mem_cons] at hd
+        rcases hd with rfl | hd
+        · simp [hk, isHTTP, httpMethods]
+        · exact hancH d hd) j)
+    · simpa [idOf, Ent.chain, hM] using h
+  have rpcCase : rpcIdOf e.chain = .ok j → idOf ⟨md, mk, manc⟩ = .ok j := by
+    intro h
+    rw [Hr] at h
+    rcases isMeth_split hm with hM | ⟨hM, _⟩
+    · simpa [idOf, Ent.chain, hM] using h
+    · exact absurd h (rpcIdOf_none (by
+        intro d hd
+        simp only [List.mem_cons] at hd
+        rcases hd with rfl | hd
+        · exact hM
+        · exact hancM d hd) j)
+  unfold tgt at ht
+  split at ht
+  · unfold tgtDescr at ht
+    rw [hanc] at ht
+    cases ups with
+    | nil =>
+      simp only [List.nil_append] at ht
+      split at ht
+      · exact httpCase (toOption_some ht)
+      · split at ht
+        · exact rpcCase (toOption_some ht)
+        · cases ht
+    | cons u us =>
+      obtain ⟨_, h2, h3, _⟩ := inner_facts (hups u (List.mem_cons_self ..))
+      simp [h2, h3] at ht
+  all_goals first | exact httpCase (toOption_some ht) | exact rpcCase (toOption_some ht) | cases ht
+
+/-! ### who targets whom -/
+
+/-- no method directive among the ancestors -/
+def noMeth (anc : List Up) : Prop := ∀ u ∈ anc, isMeth u.d.kind = false
+
+theorem noMeth_cons {d : BDir} {kids : List BDir} {anc : List Up} (hd : isMeth d.kind = false) (h : noMeth anc) :
+    noMeth (⟨d, kids⟩ :: anc) := by
+  intro u hu
+  rcases List.mem_cons.mp hu with rfl | hu
+  · exact hd
+  · exact h u hu
+
+theorem tgt_meth {e : Ent} (h : isMeth e.d.kind = true) : tgt e = none := by
+  unfold tgt
+  split <;> first | rfl | (rename_i hk; rw [hk] at h; exact absurd h (by decide))
+
+theorem subsF_dir_mem {anc : List Up} {f : List BTree} {a : List Up} {s : BTree} (hs : (a, s) ∈ subsF anc f) :
+    s.dir ∈ flatF f := by
+  have h1 : entOf (a, s) ∈ flatAF anc f := by rw [flatAF_subs]; exact List.mem_map_of_mem hs
+  rw [← flatAF_dirs anc f]
+  exact List.mem_map_of_mem (f := fun e : Ent => e.d) h1
+
+mutual
+  /-- in an obeying forest under method-free ancestors every entry that targets an interaction targets the one
+  of a method directive of that forest -/
+  theorem owned_tree (anc : List Up) (hno : noMeth anc) : ∀ t : BTree, obeysT t = true →
+      ∀ e ∈ flatA anc t, ∀ j, tgt e = some j → ∃ m ∈ flatA anc t, isMeth m.d.kind = true ∧ idOf m = .ok j
+    | .node d kids, ho, e, he, j, ht => by
+      simp only [flatA, List.mem_cons] at he
+      simp only [obeysT, Bool.and_eq_true, List.all_eq_true] at ho
+      cases hm : isMeth d.kind with
+      | true =>
+        rcases he with rfl | he
+        · rw [tgt_meth hm] at ht; cases ht
+        · obtain ⟨ups, h1, h2, h3⟩ := mem_flatAF_anc _ kids e he
+          have hinn := inner_flatF d.kind (by simp [hm]) kids ho.2
+            (fun k hk => ho.1 k.dir (List.mem_map_of_mem hk))
+          have := tgt_below (hinn _ h3) h1 (fun u hu => hinn _ (h2 u hu)) hno hm ht
+          exact ⟨⟨d, kids.map BTree.dir, anc⟩, by simp [flatA], hm, this⟩
+      | false =>
+        rcases he with rfl | he
+        · obtain ⟨d', hd', hm'⟩ := tgt_some_meth ht
+          simp only [Ent.chain, List.mem_cons, List.mem_map] at hd'
+          rcases hd' with rfl | ⟨u, hu, rfl⟩
+          · rw [hm] at hm'; cases hm'
+          · rw [hno u hu] at hm'; cases hm'
+        · obtain ⟨m, hmem, h1, h2⟩ := owned_forest _ (noMeth_cons hm hno) kids ho.2 e he j ht
+          exact ⟨m, by simp [flatA, hmem], h1, h2⟩
+  theorem owned_forest (anc : List Up) (hno : noMeth anc) : ∀ f : List BTree, obeysF f = true →
+      ∀ e ∈ flatAF anc f, ∀ j, tgt e = some j → ∃ m ∈ flatAF anc f, isMeth m.d.kind = true ∧ idOf m = .ok j
+    | [], _, e, he, _, _ => by simp [flatAF] at he
+    | t :: r, ho, e, he, j, ht => by
+      simp only [obeysF, Bool.and_eq_true] at ho
+      simp only [flatAF, List.mem_append] at he ⊢
+      rcases he with he | he
+      · obtain ⟨m, hmem, h1, h2⟩ := owned_tree anc hno t ho.1 e he j ht
+        exact ⟨m, .inl hmem, h1, h2⟩
+      · obtain ⟨m, hmem, h1, h2⟩ := owned_forest anc hno r ho.2 e he j ht
+        exact ⟨m, .inr hmem, h1, h2⟩
+end
+
+mutual
+  /-- where the subtree of a method directive sits in the source order, and who targets what after it -/
+  theorem decomp_tree (anc : List Up) (hno : noMeth anc) : ∀ t : BTree, obeysT t = true →
+      ∀ a s, (a, s) ∈ subs anc t → isMeth s.dir.kind = true →
+      ∃ pre post, flatA anc t = pre ++ flatA a s ++ post ∧ noMeth a ∧ obeysT s = true ∧
+        (∀ e ∈ post, ∀ j, tgt e = some j → ∃ m ∈ post, isMeth m.d.kind = true ∧ idOf m = .ok j)
+    | .node d kids, ho, a, s, hs, hm => by
+      simp only [subs, List.mem_cons] at hs
+      rcases hs with heq | hs
+      · cases heq
+        exact ⟨[], [], by simp, hno, ho, by simp⟩
+      · have ho' := ho
+        simp only [obeysT, Bool.and_eq_true, List.all_eq_true] at ho'
+        cases hmd : isMeth d.kind with
+        | true =>
+          exfalso
+          have hinn := inner_flatF d.kind (by simp [hmd]) kids ho'.2
+            (fun k hk => ho'.1 k.dir (List.mem_map_of_mem hk)) _ (subsF_dir_mem hs)
+          rw [(inner_facts hinn).2.2.2] at hm; cases hm
+        | false =>
+          obtain ⟨pre, post, h1, h2, h3, h4⟩ := decomp_forest _ (noMeth_cons hmd hno) kids ho'.2 a s hs hm
+          exact ⟨⟨d, kids.map BTree.dir, anc⟩ :: pre, post, by simp [flatA, h1], h2, h3, h4⟩
+  theorem decomp_forest (anc : List Up) (hno : noMeth anc) : ∀ f : List BTree, obeysF f = true →
+      ∀ a s, (a, s) ∈ subsF anc f → isMeth s.dir.kind = true →
+      ∃ pre post, flatAF anc f = pre ++ flatA a s ++ post ∧ noMeth a ∧ obeysT s = true ∧
+        (∀ e ∈ post, ∀ j, tgt e = some j → ∃ m ∈ post, isMeth m.d.kind = true ∧ idOf m = .ok j)
+    | [], _, a, s, hs, _ => by simp [subsF] at hs
+    | t :: r, ho, a, s, hs, hm => by
+      simp only [obeysF, Bool.and_eq_true] at ho
+      simp only [subsF, List.mem_append] at hs
+      rcases hs with hs | hs
+      · obtain ⟨pre, post, h1, h2, h3, h4⟩ := decomp_tree anc hno t ho.1 a s hs hm
+        refine ⟨pre, post ++ flatAF anc r, by simp [flatAF, h1], h2, h3, ?_⟩
+        intro e he j ht
+        rcases List.mem_append.mp he with he | he
+        · obtain ⟨m, hm1, hm2, hm3⟩ := h4 e he j ht
+          exact ⟨m, List.mem_append_left _ hm1, hm2, hm3⟩
+        · obtain ⟨m, hm1, hm2, hm3⟩ := owned_forest anc hno r ho.2 e he j ht
+          exact ⟨m, List.mem_append_right _ hm1, hm2, hm3⟩
+      · obtain ⟨pre, post, h1, h2, h3, h4⟩ := decomp_forest anc hno r ho.2 a s hs hm
+        exact ⟨flatA anc t ++ pre, post, by simp [flatAF, h1], h2, h3, h4⟩
+end
+
+/-! ### the fold of a method's own subtree, computed -/
+
+theorem mergeReq_none_right (a : Option ReqM) : mergeReq a none = a := by cases a <;> rfl
+
+theorem mergeReq_assoc (a b c : Option ReqM) : mergeReq (mergeReq a b) c = mergeReq a (mergeReq b c) := by
+  cases a <;> cases b <;> cases c <;> simp [mergeReq, Option.or_assoc, Bool.or_assoc]
+
+theorem add_empty (x : InterM) : addC x {} = x := by
+  cases x; simp [addC, mergeReq_none_right]
+
+theorem add_merge (x : InterM) (a b : Content) : addC (addC x a) b = addC x (a.merge b) := by
+  simp [addC, Content.merge, mergeReq_assoc, Option.or_assoc, Bool.or_assoc, List.append_assoc]
+
+theorem fold_one (j : IId) (e : Ent) (x : InterM) :
+    foldP j [e] x = if tgt e = some j then effP e x else some x := by
+  simp only [foldP]
+  split <;> simp
+
+theorem fold_cons_tgt {j : IId} {e : Ent} {r : List Ent} {x y : InterM} (ht : tgt e = some j)
+    (h : foldP j (e :: r) x = some y) : ∃ x₀, effP e x = some x₀ ∧ foldP j r x₀ = some y := by
+  simp only [foldP, ht, if_true] at h
+  cases he : effP e x with
+  | none => simp [he] at h
+  | some x₀ => exact ⟨x₀, rfl, by simpa [he] using h⟩
+
+theorem admits_leaf {k : Kind}
+    (h : k = .Description ∨ k = .Path ∨ k = .Query ∨ k = .Paste ∨ k = .Tags ∨ k = .Params ∨ k = .Result ∨
+      k = .Body ∨ k = .Headers) (c : Kind) : admitsK k c = false := by
+  rcases h with rfl | rfl | rfl | rfl | rfl | rfl | rfl | rfl | rfl <;> rfl
+
+theorem leaf_kids {d : BDir} {kids : List BTree} (ho : obeysT (.node d kids) = true)
+    (hl : ∀ c, admitsK d.kind c = false) : kids = [] := by
+  cases kids with
+  | nil => rfl
+  | cons k r => simp [obeysT, hl] at ho
+
+theorem kid_table (p c : Kind) (hp : isMeth p = true) (ha : admitsK p c = true) :
+    (isHTTP p = true ∧ (c = .Description ∨ c = .Request ∨ c = .HTTPResponseCode ∨ c = .Path ∨ c = .Query ∨
+        c = .Paste ∨ c = .Tags)) ∨
+    (p = .Method ∧ (c = .Description ∨ c = .Params ∨ c = .Result ∨ c = .Tags)) := by
+  revert hp ha
+  cases p <;> cases c <;> decide
+
+theorem gk_table (p c : Kind) (hp : p = .Request ∨ p = .HTTPResponseCode) (ha : admitsK p c = true) :
+    c = .Body ∨ c = .Headers ∨ c = .Paste := by
+  revert ha
+  rcases hp with rfl | rfl <;> cases c <;> decide
+
+/-- the chain of an entry below a method directive resolves like the chain of the method directive -/
+theorem chain_below {e : Ent} {ups : List Up} {md : BDir} {mk : List BDir} {manc : List Up}
+    (hin : inner e.d.kind = true) (hanc : e.anc = ups ++ ⟨md, mk⟩ :: manc) (hups : ∀ u ∈ ups, inner u.d.kind = true) :
+    httpIdOf e.chain = httpIdOf (md :: manc.map (·.d)) ∧ rpcIdOf e.chain = rpcIdOf (md :: manc.map (·.d)) := by
+  have hch : e.chain = (e.d :: ups.map (·.d)) ++ (md :: manc.map (·.d)) := by simp [Ent.chain, hanc]
+  have hps : ∀ d ∈ e.d :: ups.map (·.d), inner d.kind = true := by
+    intro d hd
+    simp only [List.mem_cons, List.mem_map] at hd
+    rcases hd with rfl | ⟨u, hu, rfl⟩
+    · exact hin
+    · exact hups u hu
+  exact ⟨by rw [hch]; exact httpIdOf_skips _ _ hps, by rw [hch]; exact rpcIdOf_skips _ _ hps⟩
+
+theorem idOf_http {md : BDir} {mk : List BDir} {manc : List Up} {i : IId} (hid : idOf ⟨md, mk, manc⟩ = .ok i)
+    (hh : isHTTP md.kind = true) : httpIdOf (md :: manc.map (·.d)) = .ok i := by
+  have : (md.kind == Kind.Method) = false := by
+    cases hk : md.kind <;> simp_all [isHTTP, httpMethods]
+  simpa [idOf, Ent.chain, this] using hid
+
+theorem idOf_rpc {md : BDir} {mk : List BDir} {manc : List Up} {i : IId} (hid : idOf ⟨md, mk, manc⟩ = .ok i)
+    (hh : md.kind = .Method) : rpcIdOf (md :: manc.map (·.d)) = .ok i := by
+  simpa [idOf, Ent.chain, hh] using hid
+
+/-! what each accepted local step amounts to -/
+
+theorem lDescr_add {d : BDir} {x x₁ : InterM} (h : lDescr d x = some x₁) :
+    x₁ = addC x { descr := descrText d } := by
+  unfold lDescr at h
+  split at h; · cases h
+  rename_i t ht
+  split at h; · cases h
+  rename_i hs
+  cases h
+  have : x.descr = none := by cases hd : x.descr <;> simp_all
+  cases x
+  simp_all [addC, mergeReq_none_right]
+
+theorem lQuery_add {d : BDir} {x x₁ : InterM} (h : lQuery d x = some x₁) :
+    x₁ = addC x { query := some (queryM d) } := by
+  unfold lQuery at h
+  split at h; · cases h
+  rename_i hs
+  cases h
+  have : x.query = none := by cases hd : x.query <;> simp_all
+  cases x
+  simp_all [addC, mergeReq_none_right]
+
+theorem lParams_add {x x₁ : InterM} (h : lParams x = some x₁) : x₁ = addC x { params := true } := by
+  unfold lParams at h
+  split at h; · cases h
+  cases h
+  cases x
+  simp_all [addC, mergeReq_none_right]
+
+theorem lResult_add {x x₁ : InterM} (h : lResult x = some x₁) : x₁ = addC x { result := true } := by
+  unfold lResult at h
+  split at h; · cases h
+  cases h
+  cases x
+  simp_all [addC, mergeReq_none_right]
+
+theorem kbeq (a b : Kind) : (a == b) = decide (a = b) := rfl
+
+theorem lRespBody_last {b : BodyM} {x y : InterM} {pre : List RespM} {r : RespM} (hx : x.responses = pre ++ [r])
+    (h : lRespBody b x = some y) :
+    r.body = none ∧ y = { x with responses := pre ++ [{ r with body := some b }] } := by
+  unfold lRespBody at h
+  simp only [hx, List.getLast?_concat, List.dropLast_concat] at h
+  split at h; · cases h
+  rename_i hb
+  cases h
+  exact ⟨by cases hr : r.body <;> simp_all, rfl⟩
+
+theorem lHeadResp_last {x y : InterM} {pre : List RespM} {r : RespM} (hx : x.responses = pre ++ [r])
+    (h : lHeadResp x = some y) :
+    r.headers = false ∧ y = { x with responses := pre ++ [{ r with headers := true }] } := by
+  unfold lHeadResp at h
+  simp only [hx, List.getLast?_concat, List.dropLast_concat] at h
+  split at h; · cases h
+  rename_i hb
+  cases h
+  exact ⟨by simpa using hb, rfl⟩
+
+theorem lResponse_new {d : BDir} {x x₀ : InterM} (hk : d.kind = .HTTPResponseCode) (h : lResponse d x = some x₀) :
+    x₀ = { x with responses := x.responses ++ [{ id := d.id, code := d.keyword, annot := d.annot,
+                                                  body := if respSupplies d then some (bodyM d) else none }] } := by
+  unfold lResponse at h
+  simp only [hk, beq_self_eq_true, if_true] at h
+  split at h
+  · rename_i hs
+    obtain ⟨_, rfl⟩ := lRespBody_last (x := lRespNew d x) (pre := x.responses) rfl h
+    simp [lRespNew, hs]
+  · rename_i hs
+    simp at h
+    subst h
+    simp [lRespNew, hs]
+
+theorem lResponse_body {d : BDir} {x y : InterM} (hk : d.kind = .Body) (h : lResponse d x = some y) :
+    lRespBody (bodyM d) x = some y := by
+  unfold lResponse at h
+  simp only [hk] at h
+  split at h
+  · simpa using h
+  · simp at h
+
+theorem fold_gk_resp {i : IId} {p : Up} {rest : List Up} (hp : p.d.kind = .HTTPResponseCode)
+    (hh : ∀ gd : BDir, inner gd.kind = true → (httpIdOf (gd :: (p :: rest).map (·.d))).toOption = some i) :
+    ∀ (gks : List BTree), obeysF gks = true → (∀ g ∈ gks, admitsK .HTTPResponseCode g.dir.kind = true) →
+    ∀ (x y : InterM) (pre : List RespM) (r : RespM), x.responses = pre ++ [r] →
+      foldP i (flatAF (p :: rest) gks) x = some y →
+      y = { x with responses := pre ++ [{ r with body := r.body.or (childBody (gks.map BTree.dir)),
+                                                 headers := r.headers || hasKind .Headers (gks.map BTree.dir) }] }
+  | [], _, _, x, y, pre, r, hx, h => by
+    simp [flatAF, foldP] at h; subst h
+    cases x; simp_all [childBody, hasKind]
+  | .node gd ggk :: gs, ho, ha, x, y, pre, r, hx, h => by
+    simp only [obeysF, Bool.and_eq_true] at ho
+    have hkind := gk_table _ _ (.inr rfl) (ha _ (List.mem_cons_self ..))
+    simp only [BTree.dir] at hkind
+    have hleaf : ggk = [] := leaf_kids ho.1 (admits_leaf (by rcases hkind with h | h | h <;> simp [h]))
+    subst hleaf
+    simp only [flatAF, flatA, List.map_nil, List.cons_append, List.nil_append] at h
+    have ih := fold_gk_resp hp hh gs ho.2 (fun g hg => ha g (List.mem_cons_of_mem _ hg))
+    rcases hkind with hk | hk | hk
+    · have ht : tgt ⟨gd, [], p :: rest⟩ = some i := by
+        simp only [tgt, hk, Ent.chain]; exact hh gd (by simp [inner, hk])
+      obtain ⟨x₀, he, hf⟩ := fold_cons_tgt ht h
+      simp only [effP, hk, lBody, hp] at he
+      have he' : lResponse gd x = some x₀ := by simpa using he
+      obtain ⟨hrb, rfl⟩ := lRespBody_last hx (lResponse_body hk he')
+      rw [ih _ y pre { r with body := some (bodyM gd) } rfl hf]
+      simp [childBody, hasKind, BTree.dir, hk, hrb, kbeq]
+    · have ht : tgt ⟨gd, [], p :: rest⟩ = some i := by
+        simp only [tgt, hk, Ent.chain]; exact hh gd (by simp [inner, hk])
+      obtain ⟨x₀, he, hf⟩ := fold_cons_tgt ht h
+      simp only [effP, hk, lHeaders, hp] at he
+      have he' : lHeadResp x = some x₀ := by simpa using he
+      obtain ⟨hrb, rfl⟩ := lHeadResp_last hx he'
+      rw [ih _ y pre { r with headers := true } rfl hf]
+      simp [childBody, hasKind, BTree.dir, hk, hrb, kbeq]
+    · have ht : tgt ⟨gd, [], p :: rest⟩ = none := by simp [tgt, hk]
+      simp only [foldP, ht] at h
+      rw [ih x y pre r hx (by simpa using h)]
+      simp [childBody, hasKind, BTree.dir, hk, kbeq]
+
+theorem lReqBody_some {b : BodyM} {x y : InterM} {r : ReqM} (hx : x.request = some r) (h : lReqBody b x = some y) :
+    r.body = none ∧ y = { x with request := some { r with body := some b } } := by
+  unfold lReqBody at h
+  simp only [hx] at h
+  split at h; · cases h
+  rename_i hb
+  cases h
+  exact ⟨by cases hr : r.body <;> simp_all, rfl⟩
+
+theorem lHeadReq_some {x y : InterM} {r : ReqM} (hx : x.request = some r) (h : lHeadReq x = some y) :
+    r.headers = false ∧ y = { x with request := some { r with headers := true } } := by
+  unfold lHeadReq at h
+  simp only [hx] at h
+  split at h; · cases h
+  rename_i hb
+  cases h
+  exact ⟨by simpa using hb, rfl⟩
+
+theorem lRequest_body {d : BDir} {x y : InterM} (hk : d.kind = .Body) (h : lRequest d x = some y) :
+    lReqBody (bodyM d) x = some y := by
+  unfold lRequest at h
+  simp only [hk] at h
+  split at h
+  · simpa using h
+  · simp at h
+
+theorem fold_gk_req {i : IId} {p : Up} {rest : List Up} (hp : p.d.kind = .Request)
+    (hh : ∀ gd : BDir, inner gd.kind = true → (httpIdOf (gd :: (p :: rest).map (·.d))).toOption = some i) :
+    ∀ (gks : List BTree), obeysF gks = true → (∀ g ∈ gks, admitsK .Request g.dir.kind = true) →
+    ∀ (x y : InterM) (r : ReqM), x.request = some r →
+      foldP i (flatAF (p :: rest) gks) x = some y →
+      y = { x with request := some { r with body := r.body.or (childBody (gks.map BTree.dir)),
+                                            headers := r.headers || hasKind .Headers (gks.map BTree.dir) } }
+  | [], _, _, x, y, r, hx, h => by
+    simp [flatAF, foldP] at h; subst h
+    cases x; simp_all [childBody, hasKind]
+  | .node gd ggk :: gs, ho, ha, x, y, r, hx, h => by
+    simp only [obeysF, Bool.and_eq_true] at ho
+    have hkind := gk_table _ _ (.inl rfl) (ha _ (List.mem_cons_self ..))
+    simp only [BTree.dir] at hkind
+    have hleaf : ggk = [] := leaf_kids ho.1 (admits_leaf (by rcases hkind with h | h | h <;> simp [h]))
+    subst hleaf
+    simp only [flatAF, flatA, List.map_nil, List.cons_append, List.nil_append] at h
+    have ih := fold_gk_req hp hh gs ho.2 (fun g hg => ha g (List.mem_cons_of_mem _ hg))
+    rcases hkind with hk | hk | hk
+    · have ht : tgt ⟨gd, [], p :: rest⟩ = some i := by
+        simp only [tgt, hk, Ent.chain]; exact hh gd (by simp [inner, hk])
+      obtain ⟨x₀, he, hf⟩ := fold_cons_tgt ht h
+      simp only [effP, hk, lBody, hp] at he
+      have he' : lRequest gd x = some x₀ := by simpa using he
+      obtain ⟨hrb, rfl⟩ := lReqBody_some hx (lRequest_body hk he')
+      rw [ih _ y { r with body := some (bodyM gd) } rfl hf]
+      simp [childBody, hasKind, BTree.dir, hk, hrb, kbeq]
+    · have ht : tgt ⟨gd, [], p :: rest⟩ = some i := by
+        simp only [tgt, hk, Ent.chain]; exact hh gd (by simp [inner, hk])
+      obtain ⟨x₀, he, hf⟩ := fold_cons_tgt ht h
+      simp only [effP, hk, lHeaders, hp] at he
+      have he' : lHeadReq x = some x₀ := by simpa using he
+      obtain ⟨hrb, rfl⟩ := lHeadReq_some hx he'
+      rw [ih _ y { r with headers := true } rfl hf]
+      simp [childBody, hasKind, BTree.dir, hk, hrb, kbeq]
+    · have ht : tgt ⟨gd, [], p :: rest⟩ = none := by simp [tgt, hk]
+      simp only [foldP, ht] at h
+      rw [ih x y r hx (by simpa using h)]
+      simp [childBody, hasKind, BTree.dir, hk, kbeq]
+
+theorem mergeReq_some_right (o : Option ReqM) (q : ReqM) : ∃ r, mergeReq o (some q) = some r := by
+  cases o <;> exact ⟨_, rfl⟩
+
+theorem lRequest_new {d : BDir} {x x₀ : InterM} (hk : d.kind = .Request) (h : lRequest d x = some x₀) :
+    x₀ = { x with request := (mergeReq x.request (some { id := d.id, body := if reqSupplies d then some (bodyM d) else none })) } := by
+  unfold lRequest at h
+  simp only [hk, beq_self_eq_true, if_true] at h
+  cases hr : x.request with
+  | none =>
+    have hnew : lReqNew d x = { x with request := some { id := d.id } } := by simp [lReqNew, hr]
+    rw [hnew] at h
+    split at h
+    · rename_i hs
+      obtain ⟨_, rfl⟩ := lReqBody_some (r := { id := d.id }) rfl h
+      simp [hs, mergeReq]
+    · rename_i hs
+      simp at h
+      subst h
+      simp [hs, mergeReq]
+  | some r0 =>
+    have hnew : lReqNew d x = x := by simp [lReqNew, hr]
+    rw [hnew] at h
+    split at h
+    · rename_i hs
+      obtain ⟨hb, rfl⟩ := lReqBody_some hr h
+      simp [hs, mergeReq, hb]
+    · rename_i hs
+      simp at h
+      subst h
+      cases x
+      simp_all [mergeReq]
+
+theorem ite_or {α} (s : Bool) (b : α) (o : Option α) :
+    (if s = true then some b else none).or o = if s = true then some b else o := by
+  cases s <;> simp
+
+theorem fold_kid {i : IId} {md : BDir} {mk : List BDir} {manc : List Up} (hm : isMeth md.kind = true)
+    (hid : idOf ⟨md, mk, manc⟩ = .ok i) :
+    ∀ (k : BTree), obeysT k = true → admitsK md.kind k.dir.kind = true →
+      ∀ x y, foldP i (flatA (⟨md, mk⟩ :: manc) k) x = some y → y = addC x (kidContent k)
+  | .node kd gks, ho, ha, x, y, h => by
+    simp only [BTree.dir] at ha
+    have hin : inner kd.kind = true := inner_closed _ _ (by simp [hm]) ha
+    have hc0 := chain_below (e := ⟨kd, gks.map BTree.dir, ⟨md, mk⟩ :: manc⟩) (ups := []) hin rfl (by simp)
+    have hc1 : ∀ gd : BDir, inner gd.kind = true →
+        httpIdOf (gd :: (⟨kd, gks.map BTree.dir⟩ :: ⟨md, mk⟩ :: manc).map (·.d)) = httpIdOf (md :: manc.map (·.d)) := by
+      intro gd hgd
+      exact (chain_below (e := ⟨gd, [], ⟨kd, gks.map BTree.dir⟩ :: ⟨md, mk⟩ :: manc⟩) (ups := [⟨kd, gks.map BTree.dir⟩])
+        hgd rfl (by simpa using hin)).1
+    have hho := ho
+    simp only [obeysT, Bool.and_eq_true, List.all_eq_true] at hho
+    have noeff : tgt ⟨kd, gks.map BTree.dir, ⟨md, mk⟩ :: manc⟩ = none → (∀ c, admitsK kd.kind c = false) →
+        kidContent (.node kd gks) = {} → y = addC x (kidContent (.node kd gks)) := by
+      intro ht hl hc
+      have := leaf_kids ho hl; subst this
+      simp only [flatA, flatAF, List.map_nil] at h ht
+      rw [fold_one, ht] at h
+      simp at h
+      rw [hc, add_empty, h]
+    rcases kid_table _ _ hm ha with ⟨hH, hk⟩ | ⟨hM, hk⟩
+    · have hhttp := idOf_http hid hH
+      have ht0 : (httpIdOf (Ent.chain ⟨kd, gks.map BTree.dir, ⟨md, mk⟩ :: manc⟩)).toOption = some i := by
+        rw [hc0.1]; exact toOption_ok hhttp
+      rcases hk with hk | hk | hk | hk | hk | hk | hk
+      · have := leaf_kids ho (admits_leaf (by simp [hk])); subst this
+        simp only [flatA, flatAF, List.map_nil] at h ht0
+        rw [fold_one] at h
+        have ht : tgt ⟨kd, [], ⟨md, mk⟩ :: manc⟩ = some i := by
+          simp only [tgt, hk, tgtDescr, hH, if_true]; exact ht0
+        simp only [ht, if_true, effP, hk] at h
+        rw [lDescr_add h]; simp [kidContent, BTree.dir, hk]
+      · simp only [flatA] at h
+        have ht : tgt ⟨kd, gks.map BTree.dir, ⟨md, mk⟩ :: manc⟩ = some i := by simp only [tgt, hk]; exact ht0
+        obtain ⟨x₀, he, hf⟩ := fold_cons_tgt ht h
+        simp only [effP, hk] at he
+        have hx₀ := lRequest_new hk he
+        obtain ⟨r, hr⟩ := mergeReq_some_right x.request
+          { id := kd.id, body := if reqSupplies kd then some (bodyM kd) else none }
+        have hgk := fold_gk_req (i := i) (p := ⟨kd, gks.map BTree.dir⟩) (rest := ⟨md, mk⟩ :: manc) hk
+          (fun gd hgd => by rw [hc1 gd hgd]; exact toOption_ok hhttp) gks hho.2
+          (fun g hg => by simpa [hk] using hho.1 g.dir (List.mem_map_of_mem hg)) x₀ y r (by rw [hx₀]; exact hr) hf
+        have key : (some { id := r.id, body := r.body.or (childBody (gks.map BTree.dir)),
+                           headers := r.headers || hasKind .Headers (gks.map BTree.dir) } : Option ReqM) =
+            mergeReq x.request (some (reqPart (.node kd gks))) := by
+          cases hxr : x.request with
+          | none =>
+            rw [hxr] at hr; simp only [mergeReq, Option.some.injEq] at hr; subst hr
+            simp [mergeReq, reqPart, reqBodyOf, BTree.dir, BTree.kids, ite_or]
+            try rfl
+          | some r0 =>
+            rw [hxr] at hr; simp only [mergeReq, Option.some.injEq] at hr; subst hr
+            simp [mergeReq, reqPart, reqBodyOf, BTree.dir, BTree.kids, ite_or, Option.or_assoc]
+            try rfl
+        rw [hgk, hx₀]
+        simp only [addC, kidContent, BTree.dir, hk]
+        rw [← key]
+        simp
+      · simp only [flatA] at h
+        have ht : tgt ⟨kd, gks.map BTree.dir, ⟨md, mk⟩ :: manc⟩ = some i := by simp only [tgt, hk]; exact ht0
+        obtain ⟨x₀, he, hf⟩ := fold_cons_tgt ht h
+        simp only [effP, hk] at he
+        have hx₀ := lResponse_new hk he
+        have hgk := fold_gk_resp (i := i) (p := ⟨kd, gks.map BTree.dir⟩) (rest := ⟨md, mk⟩ :: manc) hk
+          (fun gd hgd => by rw [hc1 gd hgd]; exact toOption_ok hhttp) gks hho.2
+          (fun g hg => by simpa [hk] using hho.1 g.dir (List.mem_map_of_mem hg)) x₀ y x.responses _
+          (by rw [hx₀]) hf
+        rw [hgk, hx₀]
+        simp [addC, kidContent, BTree.dir, BTree.kids, hk, respOf, respBodyOf, ite_or, mergeReq_none_right]
+        try rfl
+      · exact noeff (by simp [tgt, hk]) (admits_leaf (by simp [hk])) (by simp [kidContent, BTree.dir, hk])
+      · have := leaf_kids ho (admits_leaf (by simp [hk])); subst this
+        simp only [flatA, flatAF, List.map_nil] at h ht0
+        rw [fold_one] at h
+        have ht : tgt ⟨kd, [], ⟨md, mk⟩ :: manc⟩ = some i := by simp only [tgt, hk]; exact ht0
+        simp only [ht, if_true, effP, hk] at h
+        rw [lQuery_add h]; simp [kidContent, BTree.dir, hk]
+      · exact noeff (by simp [tgt, hk]) (admits_leaf (by simp [hk])) (by simp [kidContent, BTree.dir, hk])
+      · exact noeff (by simp [tgt, hk]) (admits_leaf (by simp [hk])) (by simp [kidContent, BTree.dir, hk])
+    · have hrpc := idOf_rpc hid hM
+      have ht0 : (rpcIdOf (Ent.chain ⟨kd, gks.map BTree.dir, ⟨md, mk⟩ :: manc⟩)).toOption = some i := by
+        rw [hc0.2]; exact toOption_ok hrpc
+      rcases hk with hk | hk | hk | hk
+      · have := leaf_kids ho (admits_leaf (by simp [hk])); subst this
+        simp only [flatA, flatAF, List.map_nil] at h ht0
+        rw [fold_one] at h
+        have ht : tgt ⟨kd, [], ⟨md, mk⟩ :: manc⟩ = some i := by
+          have hf : isHTTP Kind.Method = false := by decide
+          simp only [tgt, hk, tgtDescr, hM, hf, Bool.false_eq_true, if_false, beq_self_eq_true, if_true]
+          exact ht0
+        simp only [ht, if_true, effP, hk] at h
+        rw [lDescr_add h]; simp [kidContent, BTree.dir, hk]
+      · have := leaf_kids ho (admits_leaf (by simp [hk])); subst this
+        simp only [flatA, flatAF, List.map_nil] at h ht0
+        rw [fold_one] at h
+        have ht : tgt ⟨kd, [], ⟨md, mk⟩ :: manc⟩ = some i := by simp only [tgt, hk]; exact ht0
+        simp only [ht, if_true, effP, hk] at h
+        rw [lParams_add h]; simp [kidContent, BTree.dir, hk]
+      · have := leaf_kids ho (admits_leaf (by simp [hk])); subst this
+        simp only [flatA, flatAF, List.map_nil] at h ht0
+        rw [fold_one] at h
+        have ht : tgt ⟨kd, [], ⟨md, mk⟩ :: manc⟩ = some i := by simp only [tgt, hk]; exact ht0
+        simp only [ht, if_true, effP, hk] at h
+        rw [lResult_add h]; simp [kidContent, BTree.dir, hk]
+      · exact noeff (by simp [tgt, hk]) (admits_leaf (by simp [hk])) (by simp [kidContent, BTree.dir, hk])
+
+theorem fold_kids {i : IId} {md : BDir} {mk : List BDir} {manc : List Up} (hm : isMeth md.kind = true)
+    (hid : idOf ⟨md, mk, manc⟩ = .ok i) :
+    ∀ (kids : List BTree), obeysF kids = true → (∀ k ∈ kids, admitsK md.kind k.dir.kind = true) →
+      ∀ x y, foldP i (flatAF (⟨md, mk⟩ :: manc) kids) x = some y → y = addC x (content kids)
+  | [], _, _, x, y, h => by
+    simp [flatAF, foldP] at h; subst h; simp [content, add_empty]
+  | k :: r, ho, ha, x, y, h => by
+    simp only [obeysF, Bool.and_eq_true] at ho
+    simp only [flatAF, foldP_append] at h
+    cases h1 : foldP i (flatA (⟨md, mk⟩ :: manc) k) x with
+    | none => simp [h1] at h
+    | some x₁ =>
+      simp only [h1, Option.bind_some] at h
+      rw [fold_kids hm hid r ho.2 (fun k' hk' => ha k' (List.mem_cons_of_mem _ hk')) x₁ y h,
+        fold_kid hm hid k ho.1 (ha k (List.mem_cons_self ..)) x x₁ h1, add_merge]
+      rfl
+
+/-- the interaction of a method directive is the fold of the directive's own subtree over the fresh interaction -/
+theorem getInter_fold {banned : List Kind} {f : List BTree} {c : Cat} (h : compile banned f = .ok c)
+    (ho : obeysF f = true) {a : List Up} {d : BDir} {kids : List BTree} (hp : (a, .node d kids) ∈ subsF [] f)
+    (hm : isMeth d.kind = true) :
+    ∃ i ns y, idOf ⟨d, kids.map BTree.dir, a⟩ = .ok i ∧ c.getInter i = some y ∧
+      foldP i (flatAF (⟨d, kids.map BTree.dir⟩ :: a) kids) { iid := i, annot := d.annot, tags := ns } = some y ∧
+      obeysF kids = true ∧ (∀ k ∈ kids, admitsK d.kind k.dir.kind = true) := by
+  obtain ⟨c₀, _, _, _, _, hr, _⟩ := compile_ok h
+  obtain ⟨pre, post, hdec, hno, hot, hpost⟩ := decomp_forest [] (by intro u hu; cases hu) f ho a _ hp hm
+  rw [hdec, List.append_assoc, run_append] at hr
+  cases h1 : run banned pre c₀ with
+  | error err => simp [h1] at hr
+  | ok c₁ =>
+    simp only [h1] at hr
+    rw [run_append] at hr
+    cases h2 : run banned (flatA a (.node d kids)) c₁ with
+    | error err => simp [h2] at hr
+    | ok c₃ =>
+      simp only [h2] at hr
+      simp only [flatA, run] at h2
+      cases h3 : step banned ⟨d, kids.map BTree.dir, a⟩ c₁ with
+      | error err => simp [h3] at h2
+      | ok c₂ =>
+        simp only [h3] at h2
+        obtain ⟨i, ns, hid, hnone, hc₂⟩ := step_meth (e := ⟨d, kids.map BTree.dir, a⟩) hm h3
+        have hg₂ : c₂.getInter i = some { iid := i, annot := d.annot, tags := ns } := by
+          simp only [Cat.getInter] at hnone ⊢
+          rw [hc₂, List.find?_append, hnone]
+          simp
+        obtain ⟨y, hy, hfy⟩ := run_loc _ h2 hg₂
+        obtain ⟨z, hz, hfz⟩ := run_loc _ hr hy
+        have hskip : foldP i post y = some y := foldP_skip i post y (fun e he ht => by
+          obtain ⟨m, hmm, hk, hidm⟩ := hpost e he i ht
+          exact run_no_meth post hr hy m hmm hk hidm)
+        rw [hskip] at hfz; cases hfz
+        simp only [obeysT, Bool.and_eq_true, List.all_eq_true] at hot
+        exact ⟨i, ns, y, hid, hz, hfy, hot.2, fun k hk => hot.1 k.dir (List.mem_map_of_mem hk)⟩
+
+/-- a Description child is accepted only while the interaction has no description -/
+theorem fold_kid_descr {i : IId} {md : BDir} {mk : List BDir} {manc : List Up} (hm : isMeth md.kind = true)
+    (hid : idOf ⟨md, mk, manc⟩ = .ok i) {kd : BDir} {gks : List BTree} (ho : obeysT (.node kd gks) = true)
+    (hk : kd.kind = .Description) {x y : InterM}
+    (h : foldP i (flatA (⟨md, mk⟩ :: manc) (.node kd gks)) x = some y) :
+    x.descr = none ∧ (descrText kd).isSome = true := by
+  have hin : inner kd.kind = true := by simp [hk, inner]
+  have hc0 := chain_below (e := ⟨kd, gks.map BTree.dir, ⟨md, mk⟩ :: manc⟩) (ups := []) hin rfl (by simp)
+  have := leaf_kids ho (admits_leaf (by simp [hk])); subst this
+  simp only [flatA, flatAF, List.map_nil] at h hc0
+  rw [fold_one] at h
+  have ht : tgt ⟨kd, [], ⟨md, mk⟩ :: manc⟩ = some i := by
+    rcases isMeth_split hm with hM | ⟨hM, hH⟩
+    · have hM' : md.kind = .Method := by simpa using hM
+      have hf : isHTTP Kind.Method = false := by decide
+      simp only [tgt, hk, tgtDescr, hM', hf, Bool.false_eq_true, if_false, beq_self_eq_true, if_true]
+      rw [hc0.2]; exact toOption_ok (idOf_rpc hid hM')
+    · simp only [tgt, hk, tgtDescr, hH, if_true]
+      rw [hc0.1]; exact toOption_ok (idOf_http hid hH)
+  simp only [ht, if_true, effP, hk] at h
+  unfold lDescr at h
+  split at h; · cases h
+  rename_i t ht'
+  split at h; · cases h
+  rename_i hs
+  exact ⟨by cases hd : x.descr <;> simp_all, by simp [ht']⟩
+
+theorem fold_kid_query {i : IId} {md : BDir} {mk : List BDir} {manc : List Up} (hm : isMeth md.kind = true)
+    (hid : idOf ⟨md, mk, manc⟩ = .ok i) {kd : BDir} {gks : List BTree} (ho : obeysT (.node kd gks) = true)
+    (ha : admitsK md.kind kd.kind = true) (hk : kd.kind = .Query) {x y : InterM}
+    (h : foldP i (flatA (⟨md, mk⟩ :: manc) (.node kd gks)) x = some y) : x.query = none := by
+  have hin : inner kd.kind = true := by simp [hk, inner]
+  have hc0 := chain_below (e := ⟨kd, gks.map BTree.dir, ⟨md, mk⟩ :: manc⟩) (ups := []) hin rfl (by simp)
+  have := leaf_kids ho (admits_leaf (by simp [hk])); subst this
+  simp only [flatA, flatAF, List.map_nil] at h hc0
+  rw [fold_one] at h
+  have hH : isHTTP md.kind = true := by
+    rcases kid_table _ _ hm ha with ⟨hH, _⟩ | ⟨_, hc⟩
+    · exact hH
+    · simp [hk] at hc
+  have ht : tgt ⟨kd, [], ⟨md, mk⟩ :: manc⟩ = some i := by
+    simp only [tgt, hk]
+    rw [hc0.1]; exact toOption_ok (idOf_http hid hH)
+  simp only [ht, if_true, effP, hk] at h
+  unfold lQuery at h
+  split at h; · cases h
+  rename_i hs
+  cases hd : x.query <;> simp_all
+
+theorem addC_descr (x : InterM) (k : Content) : (addC x k).descr = x.descr.or k.descr := rfl
+theorem addC_query (x : InterM) (k : Content) : (addC x k).query = x.query.or k.query := rfl
+
+theorem or_eq_none {α} {a b : Option α} (h : a.or b = none) : a = none ∧ b = none := by
+  cases a <;> cases b <;> simp_all
+
+/-- every Description child of an accepted method directive supplies the description -/
+theorem fold_kids_descr {i : IId} {md : BDir} {mk : List BDir} {manc : List Up} (hm : isMeth md.kind = true)
+    (hid : idOf ⟨md, mk, manc⟩ = .ok i) :
+    ∀ (kids : List BTree), obeysF kids = true → (∀ k ∈ kids, admitsK md.kind k.dir.kind = true) →
+      ∀ x y, foldP i (flatAF (⟨md, mk⟩ :: manc) kids) x = some y →
+        ∀ k ∈ kids, k.dir.kind = .Description →
+          x.descr = none ∧ (content kids).descr = descrText k.dir ∧ (descrText k.dir).isSome = true
+  | [], _, _, _, _, _, k, hk, _ => by cases hk
+  | .node kd gks :: r, ho, ha, x, y, h, k, hk, hkd => by
+    simp only [obeysF, Bool.and_eq_true] at ho
+    simp only [flatAF, foldP_append] at h
+    cases h1 : foldP i (flatA (⟨md, mk⟩ :: manc) (.node kd gks)) x with
+    | none => simp [h1] at h
+    | some x₁ =>
+      simp only [h1, Option.bind_some] at h
+      have hx₁ := fold_kid hm hid _ ho.1 (ha _ (List.mem_cons_self ..)) x x₁ h1
+      rcases List.mem_cons.mp hk with rfl | hk'
+      · simp only [BTree.dir] at hkd
+        obtain ⟨h2, h3⟩ := fold_kid_descr hm hid ho.1 hkd h1
+        refine ⟨h2, ?_, h3⟩
+        cases hdt : descrText kd with
+        | none => simp [hdt] at h3
+        | some t => simp [content, Content.merge, kidContent, BTree.dir, hkd, hdt]
+      · obtain ⟨h2, h3, h4⟩ := fold_kids_descr hm hid r ho.2 (fun k' hk' => ha k' (List.mem_cons_of_mem _ hk')) x₁ y h k hk' hkd
+        rw [hx₁, addC_descr] at h2
+        obtain ⟨h5, h6⟩ := or_eq_none h2
+        exact ⟨h5, by simp [content, Content.merge, h6, h3], h4⟩
+
+theorem fold_kids_query {i : IId} {md : BDir} {mk : List BDir} {manc : List Up} (hm : isMeth md.kind = true)
+    (hid : idOf ⟨md, mk, manc⟩ = .ok i) :
+    ∀ (kids : List BTree), obeysF kids = true → (∀ k ∈ kids, admitsK md.kind k.dir.kind = true) →
+      ∀ x y, foldP i (flatAF (⟨md, mk⟩ :: manc) kids) x = some y →
+        ∀ k ∈ kids, k.dir.kind = .Query → x.query = none ∧ (content kids).query = some (queryM k.dir)
+  | [], _, _, _, _, _, k, hk, _ => by cases hk
+  | .node kd gks :: r, ho, ha, x, y, h, k, hk, hkd => by
+    simp only [obeysF, Bool.and_eq_true] at ho
+    simp only [flatAF, foldP_append] at h
+    cases h1 : foldP i (flatA (⟨md, mk⟩ :: manc) (.node kd gks)) x with
+    | none => simp [h1] at h
+    | some x₁ =>
+      simp only [h1, Option.bind_some] at h
+      have hx₁ := fold_kid hm hid _ ho.1 (ha _ (List.mem_cons_self ..)) x x₁ h1
+      rcases List.mem_cons.mp hk with rfl | hk'
+      · simp only [BTree.dir] at hkd
+        have h2 := fold_kid_query hm hid ho.1 (ha _ (List.mem_cons_self ..)) hkd h1
+        exact ⟨h2, by simp [content, Content.merge, kidContent, BTree.dir, hkd]⟩
+      · obtain ⟨h2, h3⟩ := fold_kids_query hm hid r ho.2 (fun k' hk' => ha k' (List.mem_cons_of_mem _ hk')) x₁ y h k hk' hkd
+        rw [hx₁, addC_query] at h2
+        obtain ⟨h5, h6⟩ := or_eq_none h2
+        exact ⟨h5, by simp [content, Content.merge, h6, h3]⟩
+
+theorem eq_of_nodup_iid : ∀ (l : List InterM), (l.map (·.iid)).Nodup → ∀ x ∈ l, ∀ y ∈ l, x.iid = y.iid → x = y
+  | [], _, x, hx, _, _, _ => by cases hx
+  | a :: r, hn, x, hx, y, hy, hxy => by
+    simp only [List.map_cons, List.nodup_cons, List.mem_map, not_exists, not_and] at hn
+    rcases List.mem_cons.mp hx with rfl | hx' <;> rcases List.mem_cons.mp hy with rfl | hy'
+    · rfl
+    · exact absurd hxy.symm (hn.1 y hy')
+    · exact absurd hxy (hn.1 x hx')
+    · exact eq_of_nodup_iid r hn.2 x hx' y hy' hxy
+
+/-- the content of the interaction of a method directive: all of it -/
+theorem inter_content {banned : List Kind} {f : List BTree} {c : Cat} (h : compile banned f = .ok c)
+    (ho : obeysF f = true) {a : List Up} {t : BTree} (hp : (a, t) ∈ subsF [] f) (hm : isMeth t.dir.kind = true)
+    {x : InterM} (hx : x ∈ c.inters) (hxi : idOf (entOf (a, t)) = .ok x.iid) :
+    x = interOf x.iid t.dir x.tags t.kids ∧
+    (∀ k ∈ t.kids, k.dir.kind = .Description →
+      (content t.kids).descr = descrText k.dir ∧ (descrText k.dir).isSome = true) ∧
+    (∀ k ∈ t.kids, k.dir.kind = .Query → (content t.kids).query = some (queryM k.dir)) := by
+  cases t with
+  | node d kids =>
+  simp only [BTree.dir] at hm
+  obtain ⟨i, ns, y, hid, hget, hfold, hok, hak⟩ := getInter_fold h ho hp hm
+  have hi : i = x.iid := ok_inj (hid.symm.trans hxi)
+  have hyx : y = x :=
+    eq_of_nodup_iid _ (nodup_compile h).2.2 y (List.mem_of_find?_eq_some hget) x hx
+      ((getInter_iid hget).trans hi)
+  have hy := fold_kids hm hid kids hok hak _ y hfold
+  subst hyx
+  refine ⟨?_, ?_, ?_⟩
+  · have htags : y.tags = ns := by rw [hy]; rfl
+    rw [htags, ← hi]; exact hy
+  · intro k hk hkd
+    exact (fold_kids_descr hm hid kids hok hak _ y hfold k hk hkd).2
+  · intro k hk hkd
+    exact (fold_kids_query hm hid kids hok hak _ y hfold k hk hkd).2
+
+/-- the subtree occurrence of an entry -/
+theorem mem_subs_of_ent {f : List BTree} {m : Ent} (h : m ∈ flatAF [] f) :
+    ∃ a t, (a, t) ∈ subsF [] f ∧ entOf (a, t) = m := by
+  rw [flatAF_subs] at h
+  obtain ⟨p, hp, rfl⟩ := List.mem_map.mp h
+  exact ⟨p.1, p.2, hp, rfl⟩
+
+/-! ### the fields of `content`, declaratively -/
+
+theorem kidContent_responses (k : BTree) :
+    (kidContent k).responses = if k.dir.kind == .HTTPResponseCode then [respOf k] else [] := by
+  unfold kidContent
+  cases hk : k.dir.kind <;> simp [kbeq]
+
+theorem content_responses : ∀ kids : List BTree,
+    (content kids).responses = (kids.filter (·.dir.kind == .HTTPResponseCode)).map respOf
+  | [] => rfl
+  | k :: r => by
+    simp only [content, Content.merge, kidContent_responses, content_responses r, List.filter_cons]
+    split <;> simp
+
+theorem content_params : ∀ kids : List BTree, (content kids).params = hasKind .Params (kids.map BTree.dir)
+  | [] => rfl
+  | k :: r => by
+    simp only [content, Content.merge, content_params r, hasKind, List.map_cons, List.any_cons]
+    congr 1
+    unfold kidContent
+    cases hk : k.dir.kind <;> simp [kbeq]
+
+theorem content_result : ∀ kids : List BTree, (content kids).result = hasKind .Result (kids.map BTree.dir)
+  | [] => rfl
+  | k :: r => by
+    simp only [content, Content.merge, content_result r, hasKind, List.map_cons, List.any_cons]
+    congr 1
+    unfold kidContent
+    cases hk : k.dir.kind <;> simp [kbeq]
+
+theorem content_descr_none : ∀ kids : List BTree, (∀ k ∈ kids, k.dir.kind ≠ .Description) →
+    (content kids).descr = none
+  | [], _ => rfl
+  | k :: r, h => by
+    simp only [content, Content.merge, content_descr_none r (fun k' hk' => h k' (List.mem_cons_of_mem _ hk'))]
+    have := h k (List.mem_cons_self ..)
+    unfold kidContent
+    cases hk : k.dir.kind <;> simp_all
+
+theorem content_query_none : ∀ kids : List BTree, (∀ k ∈ kids, k.dir.kind ≠ .Query) →
+    (content kids).query = none
+  | [], _ => rfl
+  | k :: r, h => by
+    simp only [content, Content.merge, content_query_none r (fun k' hk' => h k' (List.mem_cons_of_mem _ hk'))]
+    have := h k (List.mem_cons_self ..)
+    unfold kidContent
+    cases hk : k.dir.kind <;> simp_all
+
+/-- the Request children of a method directive, merged: the first one stays -/
+def reqOf (kids : List BTree) : Option ReqM :=
+  ((kids.filter (·.dir.kind == .Request)).map reqPart).foldr (fun q acc => mergeReq (some q) acc) none
+
+theorem kidContent_request (k : BTree) :
+    (kidContent k).request = if k.dir.kind == .Request then some (reqPart k) else none := by
+  unfold kidContent
+  cases hk : k.dir.kind <;> simp [kbeq]
+
+theorem content_request : ∀ kids : List BTree, (content kids).request = reqOf kids
+  | [] => rfl
+  | k :: r => by
+    simp only [content, Content.merge, kidContent_request, content_request r, reqOf, List.filter_cons]
+    split <;> simp [mergeReq]
 
 end JSight.C04C
